@@ -218,14 +218,13 @@ from concurrent.futures import ThreadPoolExecutor as _RealThreads
 from specs import kmers_spec as _S
 from xh.taxo import fork_int, NoTracing
 
-_HDIR = os.path.join(os.path.dirname(os.path.dirname(os.path.abspath(__file__))), 'scratch', f'c13_hist_{os.getpid()}')
+_HDIR = None
 
 
 def _mk_history_files():
-    import shutil, atexit
-    shutil.rmtree(_HDIR, ignore_errors=True)
-    os.makedirs(_HDIR)
-    atexit.register(lambda: shutil.rmtree(_HDIR, ignore_errors=True))
+    global _HDIR
+    from xh import scratchdir
+    _HDIR = scratchdir.fresh('c13_hist')
     rnd = _random.Random(13)
     out = {}
 
@@ -254,7 +253,7 @@ def _mk_history_files():
     return out
 
 
-HFILES = _mk_history_files()
+HFILES = _mk_history_files() if ('hmode' in P or os.environ.get('XH_C13_HISTORY')) else {}       # only the history conditions need the files
 BATCHES = [['good0', 'good1'], ['bad'], ['good1', 'bad', 'good0'], ['good2'], ['good2', 'good0', 'good1'], ['missing', 'good1'], []]
 MODES = ['sequential', 'threads (own pool)', 'caller-supplied thread pool']
 
